@@ -239,6 +239,11 @@ theorem mcInv_of_trivMarks {fe : Frontend} (ht : TrivMarks fe) (hcR : ∀ c ∈ 
 
 /-! ### `split()`: the parts join the world of children -/
 
+/-- the part made from the constraint list `cl`: it answers for `cl` and knows exactly the variables of `cl` -/
+def ListOk (Us' : List (List Con)) (w' : World) (p : Nat) (cl : List Con) : Prop :=
+  (∀ a, Models (Us'.getD p []) a ↔ Models cl a) ∧ (∀ c ∈ cl, ∀ v ∈ c.vars, v ∈ (w'.fes.getD p {}).variables) ∧
+  (∀ v ∈ (w'.fes.getD p {}).variables, ∃ c ∈ cl, v ∈ c.vars)
+
 /-- what `split()` of the record `fs` leaves in a part -/
 structure PartOk (fs fe : Frontend) : Prop where
   keys : KeysInv fe
@@ -263,10 +268,12 @@ theorem split_go_spec (F : ChildFoot R RE E) (fs : Frontend)
       w.fes.length ≤ w'.fes.length ∧
       (∀ i, i < w.fes.length → w'.fes.getD i {} = w.fes.getD i {} ∧ Us'.getD i [] = Us.getD i []) ∧
       (∀ i, w.fes.length ≤ i → i < w'.fes.length → PartOk fs (w'.fes.getD i {})) ∧
-      ∀ p ∈ parts, p ∈ acc ∨ (w.fes.length ≤ p ∧ p < w'.fes.length)
+      (∀ p ∈ parts, p ∈ acc ∨ (w.fes.length ≤ p ∧ p < w'.fes.length)) ∧
+      ∃ newParts, parts = acc ++ newParts ∧ List.Forall₂ (ListOk Us' w') newParts lists ∧
+        ∀ p ∈ newParts, w.fes.length ≤ p ∧ p < w'.fes.length
   | [], w, Us, acc, hw, hre, _ =>
     ⟨acc, w, Us, by simp [childSplitWith.go], hw, hre, Nat.le_refl _, fun _ _ => ⟨rfl, rfl⟩,
-      fun i h1 h2 => absurd h2 (by omega), fun p hp => Or.inl hp⟩
+      fun i h1 h2 => absurd h2 (by omega), fun p hp => Or.inl hp, [], by simp, List.Forall₂.nil, fun _ hp => by cases hp⟩
   | cl :: rest, w, Us, acc, hw, hre, hl => by
     have hclR : ∀ c ∈ cl, R c := fun c hc => (hl cl (by simp) c hc).1
     have hb : TInvS R RE E (Us ++ [[]]) { w with fes := w.fes ++ [childBlank E fs] } := by
@@ -274,10 +281,10 @@ theorem split_go_spec (F : ChildFoot R RE E) (fs : Frontend)
     have hk : w.fes.length < ({ w with fes := w.fes ++ [childBlank E fs] } : World).fes.length := by simp
     have hblank : ({ w with fes := w.fes ++ [childBlank E fs] } : World).fes.getD w.fes.length {} = { track := fs.track } := by
       rw [childBlank_eq]; exact getD_append_last _ _ _
-    obtain ⟨added, w1, hrun, h1, hlen1, hoth1, hcons1, hadd1, hvars1, hself1, hre1, _, _⟩ :=
+    obtain ⟨added, w1, hrun, h1, hlen1, hoth1, hcons1, hadd1, hvars1, hself1, hre1, hcover1, _⟩ :=
       child_add_spec_ids H _ (Us ++ [[]]) hb w.fes.length hk cl hclR
     have hk1 : w.fes.length < w1.fes.length := by rw [hlen1]; exact hk
-    rw [hblank] at hcons1 hvars1
+    rw [hblank] at hcons1 hvars1 hcover1
     -- the part after `add`
     have hkeys : KeysInv (w1.fes.getD w.fes.length {}) := by
       rw [hself1]
@@ -340,14 +347,48 @@ theorem split_go_spec (F : ChildFoot R RE E) (fs : Frontend)
       intro m' hm'
       obtain ⟨m, hm, rfl⟩ := (hmem m').mp hm'
       exact ⟨fun kv hkv => mem_restrict hkv, PModel.sorted_restrict (hfs m hm) _⟩
-    obtain ⟨parts, w3, Us3, hgo, h3, hre3, hlen3, hfr3, hparts3, hp3⟩ := split_go_spec F fs hfv hfs rest
+    obtain ⟨parts, w3, Us3, hgo, h3, hre3, hlen3, hfr3, hparts3, hp3, newParts, hnp, hfa, hnr⟩ := split_go_spec F fs hfv hfs rest
       { w1 with fes := w1.fes.set w.fes.length { (w1.fes.getD w.fes.length {}) with
           models := (fs.models.map fun m => m.restrict (w1.fes.getD w.fes.length {}).variables).foldl listInsert [] } }
       _ (acc ++ [w.fes.length]) h2 (by rw [hre1]; exact hre) (fun cl' hcl' => hl cl' (List.mem_cons_of_mem _ hcl'))
     have hlen2 : ({ w1 with fes := w1.fes.set w.fes.length { (w1.fes.getD w.fes.length {}) with
           models := (fs.models.map fun m => m.restrict (w1.fes.getD w.fes.length {}).variables).foldl listInsert [] } } : World).fes.length
         = w.fes.length + 1 := by simp [hlen1]
-    refine ⟨parts, w3, Us3, ?_, h3, hre3, by omega, ?_, ?_, ?_⟩
+    -- the part made from `cl`
+    have hlistOk : ListOk Us3 w3 w.fes.length cl := by
+      obtain ⟨g1, g2⟩ := hfr3 w.fes.length (by rw [hlen2]; omega)
+      have hrec : w3.fes.getD w.fes.length {} = { (w1.fes.getD w.fes.length {}) with
+          models := (fs.models.map fun m => m.restrict (w1.fes.getD w.fes.length {}).variables).foldl listInsert [] } := by
+        rw [g1]
+        show (w1.fes.set w.fes.length _).getD w.fes.length {} = _
+        rw [getD_set_self _ _ _ _ hk1]
+      have hUs : Us3.getD w.fes.length [] = [] ++ cl := by
+        rw [g2, getD_set_self _ _ _ _ (by rw [List.length_append, hw.len]; simp)]
+        congr 1
+        rw [← hw.len]; exact getD_append_last _ _ _
+      refine ⟨fun a => by rw [hUs, List.nil_append], ?_, ?_⟩
+      · intro c hc v hv
+        rw [hrec]
+        show v ∈ (w1.fes.getD w.fes.length {}).variables
+        rcases hcover1 c hc with hin | hseen | ⟨c', hc', hid⟩
+        · exact (hvars1 v).mpr (Or.inr ⟨c, hin, hv⟩)
+        · rcases hseen with hseen | hseen <;> cases hseen
+        · have hveq := H.reg.varsId c' c (hclR c' (hadd1 c' hc')) (hclR c hc) hid
+          exact (hvars1 v).mpr (Or.inr ⟨c', hc', by rw [hveq]; exact hv⟩)
+      · intro v hv
+        rw [hrec] at hv
+        have hv' : v ∈ (w1.fes.getD w.fes.length {}).variables := hv
+        rcases (hvars1 v).mp hv' with hv' | ⟨c, hc, hvc⟩
+        · cases hv'
+        · exact ⟨c, hadd1 c hc, hvc⟩
+    refine ⟨parts, w3, Us3, ?_, h3, hre3, by omega, ?_, ?_, ?_, w.fes.length :: newParts, ?_, List.Forall₂.cons hlistOk hfa, ?_⟩
+    rotate_left 4
+    · rw [hnp]; simp
+    · intro p hp
+      rcases List.mem_cons.mp hp with rfl | hp
+      · exact ⟨Nat.le_refl _, by omega⟩
+      · obtain ⟨q1, q2⟩ := hnr p hp
+        exact ⟨by rw [hlen2] at q1; omega, q2⟩
     · rw [childSplitWith.go]
       simp only [hrun]
       exact hgo
